@@ -33,6 +33,25 @@ def _precise_floats(n=60):
     return out
 
 
+
+
+def _special_chars():
+    """strings holding one character of every class a printer may treat specially (controls,
+    DEL, C1 controls incl. NEXT LINE, no-break space, soft hyphen, line / paragraph separator,
+    bidi override, byte-order mark, replacement character, last BMP code point, astral
+    planes), raw and written as an escape, alone and between letters, and as a map key"""
+    out = []
+    for cp in (0x01, 0x07, 0x08, 0x0b, 0x0c, 0x1b, 0x1f, 0x7f, 0x80, 0x85, 0x9f, 0xa0, 0xad, 0x2028, 0x2029, 0x202e,
+               0xfeff, 0xfffd, 0xffff, 0x10000, 0x1f600, 0x10ffff):
+        esc = "\\u%04x" % cp if cp <= 0xffff else "\\U%08x" % cp
+        out.append('"a%sb"' % esc)
+        out.append('{"%s": "%s"}' % (esc, esc))
+        if cp >= 0x20 and cp != 0x7f:
+            out.append('"x%sy"' % chr(cp))
+    return out
+
+
+LITERALS += _special_chars()
 LITERALS += _precise_floats() + ["9.402388407028053e2", "940.2388407028053", "0.30000000000000004", "123456789.12345678",
                                  "1.7976931348623157e308", "4.9e-324", "2.2250738585072014e-308"]
 
